@@ -11,7 +11,7 @@ from harness.common import registry as R, tcorr, bits
 PROPERTY = 'C07'
 LEVEL = 'proof'
 REQUIRED_THEOREMS = ['Properties.C07.identity_passthrough', 'Properties.C07.cond_sees_only_identity', 'Properties.C07.transformed_depends_on',
-                     'Properties.C07.idx_partition', 'Properties.C07.param_layout_img']
+                     'Properties.C07.idx_partition', 'Properties.C07.param_layout_img', 'Properties.C07.exec_identity_passthrough', 'Properties.C07.exec_conditioner_input', 'Properties.C07.exec_refines_abstract_identity']
 RULE = ("every non-trivial mask subset for n<=4 (thorough: n<=5) with numeric entries drawn from {-2.5,-1,0,0.1,1,3}, x {additive, affine, linear, quadratic, "
         "cubic, rational-quadratic} coupling x {2-D, image} x {context, none} x both directions; distinct = (class, mask pattern, direction, img, ctx); "
         "non-trivial = at least one transformed feature changed")
